@@ -8,6 +8,7 @@ package model
 //@   requires self != nil
 
 //@ func (*BinaryModel).AddSyntaxError
+//@   requires error != nil
 //@   ensures len(m.SyntaxErrors) == old(len(m.SyntaxErrors)) + 1
 //@   ensures m.SyntaxErrors[old(len(m.SyntaxErrors))] == error
 
@@ -32,7 +33,6 @@ package model
 
 //@ func (Field).GetType
 //@   requires attrKind(f.Attr)
-//@   requires typeis(f.Attr, *ObjectFieldAttribute) ==> unbox(f.Attr, *ObjectFieldAttribute).RefPacket != nil
 
 //@ pred attrKind(a FieldAttribute) := typeis(a, *BasicFieldAttribute) || typeis(a, *LengthFieldAttribute) || typeis(a, *LengthOfAttribute) || typeis(a, *CheckSumFieldAttribute) || typeis(a, *FixedStringFieldAttribute) || typeis(a, *DynamicStringFieldAttribute) || typeis(a, *ObjectFieldAttribute) || typeis(a, *MatchFieldAttribute)
 
@@ -65,3 +65,9 @@ package model
 //@ inv *ObjectFieldAttribute: self.RefPacket != nil
 //@ inv *MatchFieldAttribute: self.MatchKeyField != nil && len(self.MatchPairs) >= 1
 //@ inv *LengthFieldAttribute: self.TragetField != nil
+
+//@ func (*BinaryModel).resolveFields
+//@   terminates-assumed inline object declarations are finitely nested (they mirror the finite parse tree); recursion descends only into IsIner packets
+//@ func (*BinaryModel).containsCycle
+//@   requires p != nil && state != nil
+//@   terminates-assumed every call either returns at once or marks a so far unmarked packet in state; the set of packets is finite
